@@ -153,9 +153,9 @@ def setupElems : List (String × Val) → Except Hard (List (String × Option (L
     | .ok s => (setupElems r).map ((k, s) :: ·)
 
 /-- `(*MatrixSetup).UnmarshalOrdered` (called when the `setup` key is present; `null` is accepted and
-    leaves the freshly made empty map). -/
+    zeroes the value). -/
 def parseSetup : Val → Except Hard (UMap (Option (List String)))
-  | .null => .ok (some [])
+  | .null => .ok none
   | .seq xs => (strsOfSeq xs).map fun l => some [("", some l)]
   | .omap kvs => (setupElems kvs).map fun l => some (umapOf l)
   | _ => .error .badShape
@@ -173,9 +173,9 @@ def withElems : List (String × Val) → Except Hard (List (String × String))
     | none => .error .badScalar
     | some s => (withElems r).map ((k, s) :: ·)
 
-/-- `(*MatrixAdjustmentWith).UnmarshalOrdered` (key present; `null` accepted). -/
+/-- `(*MatrixAdjustmentWith).UnmarshalOrdered` (key present; `null` accepted, zeroes the value). -/
 def parseWith : Val → Except Hard (UMap String)
-  | .null => .ok (some [])
+  | .null => .ok none
   | .omap kvs => (withElems kvs).map fun l => some (umapOf l)
   | v => match withScalar v with
     | some s => .ok (some [("", s)])
